@@ -56,7 +56,7 @@ def batches(ctx, hyruns):
         try:
             hyruns.get_batch(n, k, i)
             err = False
-        except ValueError:
+        except Exception:
             err = True
         return {"kind": "call", "n": n, "k": k, "i": i, "err": err}
 
